@@ -48,15 +48,25 @@ def anybits(a):
     return {"w": 64, "b": bits64(a.astype(np.float64)), "shape": list(a.shape), "cast_from": str(a.dtype)}
 
 
-def make_top(n_atoms):
+def make_top(n_atoms, chains=None):
+    """One chain of ALA residues (3 atoms each) by default.  With `chains` (list of chain ids, None = unlabelled):
+    atom a belongs to chain a * len(chains) // n_atoms (contiguous blocks, every chain non-empty when
+    n_atoms >= len(chains)); a residue starts at every chain start and after every third atom.  Atom names depend on
+    the atom index only."""
     top = md.Topology()
-    ch = top.add_chain()
-    res = None
+    if not chains:
+        chains = [None]
+    objs = [top.add_chain() if cid is None else top.add_chain(chain_id=cid) for cid in chains]
+    res, prev, k, nres = None, None, 0, 0
     for a in range(n_atoms):
-        if a % 3 == 0:
-            res = top.add_residue("ALA", ch, resSeq=a // 3 + 1)
+        c = a * len(chains) // n_atoms
+        if c != prev or k == 3:
+            nres += 1
+            res = top.add_residue("ALA", objs[c], resSeq=nres)
+            prev, k = c, 0
         name, el = ATOM_NAMES[a % 3]
         top.add_atom(name, getattr(md.element, el), res)
+        k += 1
     return top
 
 
@@ -68,7 +78,7 @@ def make_traj(tj, d="."):
     n = tj["n_atoms"]
     T = len(tj["xyz"])
     xyz = f32(tj["xyz"]).reshape(T, n, 3)
-    top = make_top(n)
+    top = make_top(n, tj.get("chains"))
     time = None if tj.get("time") is None else f32(tj["time"]).astype(np.float64)
     kw = {}
     hist = tj.get("history")
